@@ -149,6 +149,20 @@ def check(case):
         raise Violation('construction-raised', f'{desc}\n{observe.describe_exc(e)}')
     if env.log:
         raise Violation('construction-evaluates', f'{desc}\nconstruction alone evaluated {env.log[:6]}')
+    # further lazy constructions on top (valid or refused - e.g. key_zip over a filtered dataset has no keys to
+    # check and is refused): constructing, or refusing to construct, evaluates nothing either
+    import lazy_dataset as _ld
+    for what, attempt in (('items()', lambda: ds.items()), ('key_zip(self)', lambda: ds.key_zip(ds)),
+                          ('key_zip(new)', lambda: _ld.key_zip(ds, _ld.new({'a': 1})))):
+        try:
+            attempt()
+        except observe.PASS_THROUGH:
+            raise
+        except BaseException:  # (a refusal may be the library's _ItemsNotDefined, a BaseException)
+            pass
+        if env.log:
+            raise Violation('construction-evaluates|derived', f'{desc}\nconstructing .{what} on top evaluated '
+                                                              f'{env.log[:6]}')
     ref = LazyRef()
     mode = case['mode']
     try:
@@ -426,6 +440,35 @@ def run_shard(tier, idx, nshards, rec, known):
                             return [o0]
                         rec.case({'program': progs.show(node), 'mode': 'absent-key', 'arg': k, 'ast': node}, True,
                                  {'enumerated', 'mode:absent-key'}, size=progs.size(node))
+    if idx == 1 % nshards:
+        # key iteration over a concatenation of filtered parts, every prefix length: demand part by part
+        for nparts in (2, 3):
+            parts = []
+            for j in range(nparts):
+                src = {'op': 'map', 'fn': j, 'in': {'op': 'dict', 'id': j + 1, 'keys': [f'{chr(97 + j)}{i}' for i in range(3)],
+                                                   'mode': 'pickle'}}
+                parts.append({'op': 'filter', 'm': 2, 'r': j % 2, 'lazy': True, 'int': False, 'in': src})
+            for top in ('items', 'items_map', 'plain'):
+                node = {'op': 'concat', 'how': 'method', 'ins': parts}
+                if top != 'plain':
+                    node = {'op': 'items', 'in': node}
+                if top == 'items_map':
+                    node = {'op': 'map', 'fn': 3, 'in': node}
+                try:
+                    total = ev(node).n
+                except Exception:
+                    continue
+                for k in range(0, total + 2):
+                    case = {'ast': node, 'mode': 'prefix', 'arg': k}
+                    try:
+                        check(case)
+                    except Violation as v:
+                        if known.match(v.sig):
+                            continue
+                        o0.violation = (case, v.sig, v.detail)
+                        return [o0]
+                    rec.case({'program': progs.show(node), 'mode': 'prefix', 'arg': k, 'ast': node}, 0 < k < total,
+                             {'enumerated', 'mode:prefix', 'concat-of-filters'}, size=progs.size(node))
     o1 = drive(one, st_case(), N[tier], rec, known, seed() * 1000 + idx)
     if o1.violation:
         return [o1]
